@@ -383,6 +383,13 @@ def run(ctx):
         c, cb = call[0]
         gs = [(ast.unparse(t_).replace(' ', ''), p)
               for t_, p in au.guards_of(c, it)]
+        # (a false `method == 'other'` is implied by `method == 'volume'`)
+        pos_ = [g for g, p in gs if p and g.startswith(f"{mname}==")] \
+            if (mname := au.params(it)[3] if len(au.params(it)) > 3
+                else 'method') else []
+        if pos_:
+            gs = [(g, p) for g, p in gs if p or not g.startswith(
+                f"{mname}==")]
         ctx.check('C15.VA2.callsite', 'kernel only in volume mode',
                   gs == [("method=='volume'", True)],
                   f'kernel call is guarded by {gs}', ctx.where(mp, c))
